@@ -124,7 +124,10 @@ pub fn run_term(
         .collect::<Vec<_>>();
     EvalOut {
         result,
-        cost: budget - machine.ex_budget,
+        cost: ExBudget {
+            cpu: budget.cpu.saturating_sub(machine.ex_budget.cpu),
+            mem: budget.mem.saturating_sub(machine.ex_budget.mem),
+        },
         remaining: machine.ex_budget,
         logs,
     }
